@@ -167,6 +167,11 @@ pub fn full(game: &Game) -> Map<String, Value> {
     let ev = std::panic::catch_unwind(std::panic::AssertUnwindSafe(|| eval::eval(game).0));
     m.insert("evp".into(), json!(ev.is_err()));
     m.insert("ev".into(), json!(ev.unwrap_or(0)));
+    // ... and of the same position set up afresh: whatever the evaluation keeps incrementally must not show
+    let evs = Game::from_fen(&game.to_fen())
+        .ok()
+        .and_then(|g| std::panic::catch_unwind(std::panic::AssertUnwindSafe(|| eval::eval(&g).0)).ok());
+    m.insert("evs".into(), json!(evs.unwrap_or(0)));
     m.insert("hl".into(), json!(game.history.len()));
     m
 }
@@ -267,9 +272,11 @@ pub fn eval_tables() -> Value {
     let mut ph = Vec::new();
     for code in 1..=6i64 {
         let p = piece_from_code(code).unwrap();
-        let mut f = IncrementalEvalFields { phase_value: 0, piece_square_tables: crate::engine::eval::PhasedEval::ZERO };
-        f.set_at(Square::from_index(0), p);
-        ph.push(f.phase_value);
+        // (no struct literal: the type may gain fields) the weight is the change a piece makes on an empty square
+        let mut f = Game::new().incremental_eval.clone();
+        let before = f.phase_value;
+        f.set_at(Square::from_index(28), p);
+        ph.push(f.phase_value - before);
     }
     json!({"mg": mg, "eg": eg, "ph": ph})
 }
